@@ -1,5 +1,5 @@
 (** C05 — compact changes nothing a reader can see. *)
-From Ergo Require Import Base Text Events Replay Ready Compact Cmd Input View TextFacts CompactCore CompactProof Reach ReachStamps.
+From Ergo Require Import Base Text Events Replay Ready Compact Cmd Input View TextFacts CompactCore CompactProof Reach ReachStamps AfterCompact.
 Local Open Scope string_scope.
 Local Open Scope list_scope.
 
@@ -74,3 +74,42 @@ Theorem C05_updated_at_needs_monotone_refuted :
     exists g', replay_raw (compact_events (finalize g)) = Ok g' /\ obs (finalize g') <> obs (finalize g).
 Proof. exact compact_updated_at_needs_monotone_refuted. Qed.
 Print Assumptions C05_updated_at_needs_monotone_refuted.
+
+(** * "Commands issued after compaction behave exactly as they would have without it."
+    First command: same reply and same decision (for [plan], whose decision is a whole replacement log, the
+    same appended events).  Any sequence of later commands (each with its own environment; later compactions
+    and prunes included): the same replies and, after every step, the same observable store.
+    Hypotheses: [ids_hyp]/[steps_ok] - candidate ids offered to new/plan are not ids pruned before the
+    compaction (necessary: the recorded finding on post-compact id reuse, [after_compact_needs_fresh_ids_refuted]);
+    [ReachC] - items carry a non-blank title, as everything the CLI creates does (necessary for legacy untitled
+    items: [after_compact_needs_titles_refuted], recorded as known finding F5). *)
+
+Theorem C05_first_command_after_compact : forall log g e c,
+  ReachM log -> replay_raw log = Ok g -> ids_hyp (g_tombs g) e c ->
+  let log' := compact_events (finalize g) in
+  (run_txn e c log').2 = (run_txn e c log).2 /\
+  match c with
+  | CPlan _ => dec_rel log log' (run_txn e c log).1 (run_txn e c log').1
+  | _ => (run_txn e c log').1 = (run_txn e c log).1
+  end.
+Proof. exact after_compact_same_decision. Qed.
+Print Assumptions C05_first_command_after_compact.
+
+Theorem C05_commands_after_compact : forall log g ss,
+  ReachC log -> replay_raw log = Ok g -> steps_ok (g_tombs g) log ss ->
+  trace (compact_log log) ss = trace log ss
+  /\ obs_of (run_cmds (compact_log log) ss) = obs_of (run_cmds log ss).
+Proof. exact C05_after_compact. Qed.
+Print Assumptions C05_commands_after_compact.
+
+Theorem C05_compact_twice_same_bytes : forall g,
+  graph_wf g -> compact_events (finalize (compact_graph g)) = compact_events (finalize g).
+Proof. exact compact_events_idem. Qed.
+Print Assumptions C05_compact_twice_same_bytes.
+
+Theorem C05_after_compact_needs_titles_refuted :
+  exists log g ss,
+    ReachM log /\ replay_raw log = Ok g /\ steps_ok (g_tombs g) log ss /\
+    obs_of (run_cmds (compact_log log) ss) <> obs_of (run_cmds log ss).
+Proof. exact after_compact_needs_titles_refuted. Qed.
+Print Assumptions C05_after_compact_needs_titles_refuted.
